@@ -105,6 +105,7 @@ fn request_bytes(op: &ConnOp, pos: usize) -> Vec<u8> {
             Kind::B => ("POST", format!("/b/zb{tag}")),
             Kind::N => ("PUT", format!("/s1/in/n/w{tag}")),
             Kind::D => ("DELETE", format!("/nomatch/{tag}")),
+            Kind::S => ("PATCH", format!("/s1/zz{tag}/nothing")),
         };
         let behs = match beh {
             Beh::Plain => "plain",
